@@ -132,6 +132,8 @@ DESCR = [
     (r"c0[24]_\w_gend_(\w+)_(w|r)$", lambda m: dict(fns="emitted <t_basic::%s as Message>::%s vs reference encoder (hand-transcribed schema)" % (m.group(1), "encode/size" if m.group(2) == "w" else "decode"), bound="all leaf values; presence/sizes concrete")),
     (r"c07_\w_written_(\w+?)_(bin|le|unchecked|compact)$",
      lambda m: dict(fns="%s: read_field_begin + skip()" % proto(m.group(2)), bound="writer-produced value of shape %s with symbolic leaves, symbolic field id, symbolic 2-byte tail" % m.group(1))),
+    (r"c07_\w_concrete_(\w+?)_(bin|le|unchecked|compact)$",
+     lambda m: dict(fns="%s: write_* (value of shape %s) + skip()" % (proto(m.group(2)), m.group(1)), bound="writer-produced value of shape %s with CONCRETE leaves (1-, 2-, 3- and 10-byte varints), symbolic tail byte" % m.group(1))),
     (r"c07_\w_depth(\d)_limit(\d+)_(\w+)$",
      lambda m: dict(fns="%s: skip_till_depth" % proto(m.group(3)), bound="struct nested %s deep (concrete), depth budget %s" % (m.group(1), m.group(2)))),
     (r"c07_\w_arbitrary_(\w+?)_(\d+)_(\w+)$",
@@ -146,6 +148,8 @@ DESCR = [
     (r"c09_\w_gen_inner_corrupt_len", lambda m: dict(fns="emitted Inner::decode, read_faststr, split_to_checked", bound="valid skeleton with the string length prefix replaced by any 32-bit value")),
     (r"c09_\w_read_r_(\w+?)_(bin|le|compact)$",
      lambda m: dict(fns="%s: read_%s" % (proto(m.group(2)), m.group(1)), bound="arbitrary buffer of symbolic length up to the per-reader bound (3..17 bytes)")),
+    (r"c09_\w_skipfixed_(\w+?)_(bin|le|compact)$",
+     lambda m: dict(fns="%s: TInputProtocol::skip_till_depth(%s, 1) (default skipper)" % (proto(m.group(2)), m.group(1)), bound="arbitrary buffer of symbolic length 0..=width+1: every truncation point of the fixed-width value")),
     (r"c10_\w_varint_arbitrary_(\d+)", lambda m: dict(fns="prost::encoding::decode_varint (+_slice, +_slow)", bound="arbitrary slice of symbolic length <= %s vs reference LEB128 decoder" % m.group(1))),
     (r"c10_\w_arbitrary_d_(\w+)_(\d+)$", lambda m: dict(fns="prost decoder %s" % m.group(1), bound="arbitrary slice of symbolic length <= %s; wire type concrete" % m.group(2))),
     (r"c10_\w_budget_(\w+)$", lambda m: dict(fns="prost::encoding %s merge / skip_field with DecodeContext::verif_with_budget(n)" % m.group(1), bound="every u32 recursion budget n; concrete 3-5 byte input")),
